@@ -9,6 +9,21 @@ CHECKS = {
     technique="CBMC DFCC function+loop contracts on extracted update loop / swap (unbounded proof) + bounded enforcement of the whole-function contract on the real templates",
     text="Independence mechanism proved deductively for all cycle-space dimensions (support-update loop K4 at 3 sites, sparsest-support swap K6 at 2 sites, modular over SpVecGF2 operator contracts); the whole-function postcondition (count, simple cycles of the caller's edges, GF(2) rank) is a bounded stand-in: all labelled graphs n<=5 (thorough 6), all weightings n<=4, tie-heavy families, seeded random n<=9, double and int.",
     note="Assumes: SpVecGF2 operator contracts K2/K3 (checked bounded under C17), view abstraction to 64 coordinates, ForestIndex bijection (C16), search-function contracts K9-K11 only bounded. CBMC, goto-instrument, g++/Boost trusted."),
+ "C02": dict(
+    engine="E1+E3", category="other", design_ref="DESIGN.md 4/C02, 3 (K9,K10,K12,K16)",
+    technique="CBMC contracts on loop-free arithmetic helpers (proof) + bounded enforcement of the minimum-odd-cycle contracts of the search functions and of the whole-function optimality contract against independent oracles",
+    text="Minimality is not expressible as a CBMC contract; it is decomposed (de Pina) into per-phase 'minimum odd cycle' contracts. Proved: closed_plus and the scalar prefix of the label order (full domain). Bounded: bidirectional_signed_dijkstra for every witness set/start vertex/hidden chain/limit against a two-level shortest-path oracle, OddCycleFinder::find against enumerated odd cycles, whole functions against brute-force + Horton oracles (returned value = emitted sum = optimum, sorted weight vectors equal).",
+    note="Assumes exact-domain weights; oracles trusted after mutual cross-check; tree-variant search contracts (K11) covered through the whole-function runs and C14. Nothing about minimality is proved deductively."),
+ "C17": dict(
+    engine="E2+E3", category="other", design_ref="DESIGN.md 4/C17, 3 (K1-K3)",
+    technique="CBMC C++ front end on the unmodified header, harness-level contracts (assume canonical arbitrary state / assert canon+view), one run per length pair; native replay and seeded histories",
+    text="Per-operation contracts over arbitrary canonical states make the history induction trivial; the vector length is bounded: every length pair in [0,3]^2 (thorough [0,4]^2 where the cap allows) with unconstrained 64-bit coordinates, aliasing cases, all constructors/assignments/clear with symbolic length <= 4. Bounded, not proof.",
+    note="Assumes the stub <vector>/<set> are a faithful contract of the standard containers; -Dauto=const_iterator and -Dprivate=public are the only substitutions. add() excluded (unreachable, asserts on *end())."),
+ "C18": dict(
+    engine="E1+E3", category="other", design_ref="DESIGN.md 4/C18, 3 (K19-K22)",
+    technique="CBMC DFCC contracts on extracted fp.hpp functions: full-domain proof of the loop-free paths and of get_mult_inverse against ext_gcd's contract; unwinding-bounded Euclid loop and is_prime; native exhaustive grids incl. cpp_int; native replay of counterexamples",
+    text="Proof over all int64 for ext_gcd's zero-argument paths and for get_mult_inverse modulo ext_gcd's contract; bounded (unwinding) for the Euclid loop and is_prime; bounded native enumeration for long and cpp_int incl. SpVecFP histories. Found and repaired: ext_gcd(a<0,0), is_prime(2).",
+    note="Machine integers treated as such (arguments > T_MIN); congruence step p*y mod p = 0 and all cpp_int behaviour only checked natively; libm sqrt assumed to be floor sqrt."),
 }
 
 NOT_APPLICABLE = {p: WIP for p in ["C%02d" % i for i in range(1, 21)] if p not in CHECKS}
